@@ -37,6 +37,8 @@ Apps == {App(<<Svc("A", <<>>, S)>>) : S \in Small \cup {Plain}}
         \cup {App(<<Svc("P", <<"PT1", "PT2">>, Ported)>>)}
         \cup {App(<<Svc("A", <<>>, S), Svc("P", <<"PT1", "PT2">>, Ported)>>) : S \in {T \in Small : Cardinality(T) = 1}}
         \cup {App(<<Svc("A", <<>>, S), Svc("B", <<>>, Plain \ S)>>) : S \in {T \in SUBSET Plain : Cardinality(T) = 5 /\ M("m1", "m1", "m1", "m1Response", "wrapped", <<>>, <<>>, <<>>, "", "int_int") \in T}}
+\* the thorough tier adds every three-method service
+AppsThorough == Apps \cup {App(<<Svc("A", <<>>, S)>>) : S \in {T \in SUBSET Plain : Cardinality(T) = 3}}
 MethodsOf(a) == UNION {a.services[k].methods : k \in 1..Len(a.services)}
 Set(s) == {s[k] : k \in 1..Len(s)}
 
